@@ -1,6 +1,7 @@
 package govc
 
 import (
+	"golang.org/x/tools/go/ssa"
 	"bytes"
 	"context"
 	"fmt"
@@ -276,11 +277,65 @@ func Discharge(o *Obligation, timeoutMs int, all bool) *Result {
 		}
 	}
 	res.Time = time.Since(t0).Seconds()
+	if res.Status != "unsat" && res.Status != "sat" && res.Status != "disagree" && !o.noSplit {
+		// case split over the incoming edges of the nearest merge block: solvers instantiate
+		// quantified facts poorly through the equalities a merge introduces; with one edge
+		// asserted the merged names collapse to that edge's values. Sound: the block is reached
+		// through exactly one of its incoming edges.
+		if subs := o.splitByEdges(); len(subs) > 1 {
+			allOK := true
+			for k, so := range subs {
+				sr := Discharge(so, timeoutMs, false)
+				res.Tried = append(res.Tried, fmt.Sprintf("edge%d:%s", k, sr.Status))
+				if sr.Status != "unsat" {
+					allOK = false
+					break
+				}
+			}
+			if allOK {
+				res.Status, res.Solver = "unsat", "z3-new+edge-split"
+			}
+			res.Time = time.Since(t0).Seconds()
+		}
+	}
 	if res.Status == "unsat" && !all && !KeepQueries {
 		// keep disk usage low
 		os.Remove(file)
 	}
 	return res
+}
+
+// splitByEdges returns one copy of the obligation per incoming edge of the nearest merge block
+// at or above the obligation's block (nil if there is none).
+func (o *Obligation) splitByEdges() []*Obligation {
+	fv := o.Func
+	if fv == nil || o.Block == nil || fv.inEdges == nil {
+		return nil
+	}
+	b := o.Block
+	for {
+		if es := fv.inEdges[b.Index]; len(es) > 1 {
+			var out []*Obligation
+			for k, e := range es {
+				c := *o
+				c.Name = fmt.Sprintf("%s@edge%d", o.Name, k)
+				c.Reach = and(o.Reach, e)
+				c.noSplit = true
+				out = append(out, &c)
+			}
+			return out
+		}
+		var preds []*ssa.BasicBlock
+		for _, p := range b.Preds {
+			if !fv.isBackEdge(p, b) {
+				preds = append(preds, p)
+			}
+		}
+		if len(preds) != 1 {
+			return nil
+		}
+		b = preds[0]
+	}
 }
 
 var modelLine = regexp.MustCompile(`\(define-fun ([^ ]+) \(\) (\S+)\s+([^\n]+)\)`)
